@@ -871,13 +871,17 @@ pub fn judge(case: &ThrCase, out: &RunOut, prop: Prop) -> R<CaseReport> {
         rep.checks += 2;
         let ended = *r1 == PR::End;
         if out.owners_alive_after_join == 0 && !ended {
-            return fail(prop, &[C03], format!("subscriber {i}: every owner was dropped but the stream did not end (poll = {:?}; {})", r1, sched()));
+            // a subscriber that is Pending here stays suspended although the end of its stream is
+            // due: C02's "never stays suspended while ... the end of its stream is available"
+            let props: &[Prop] = if *r1 == PR::Pending { &[C03, C02] } else { &[C03] };
+            return fail(prop, props, format!("subscriber {i}: every owner was dropped but the stream did not end (poll = {:?}; {})", r1, sched()));
         }
         if out.owners_alive_after_join > 0 && ended {
             return fail(prop, &[C03], format!("subscriber {i}: stream ended although {} owner(s) are alive ({})", out.owners_alive_after_join, sched()));
         }
         if *r2 != PR::End {
-            return fail(prop, &[C03], format!("subscriber {i}: stream did not end after the last owner was dropped (poll = {:?}; {})", r2, sched()));
+            let props: &[Prop] = if *r2 == PR::Pending { &[C03, C02] } else { &[C03] };
+            return fail(prop, props, format!("subscriber {i}: stream did not end after the last owner was dropped (poll = {:?}; {})", r2, sched()));
         }
     }
     // while the main thread holds an owner (until all workers are joined), no worker can see the
